@@ -230,6 +230,11 @@ def run(prop, tier, seed, replay=None):
         else:
             ck.notes.append('the listed ABA witness no longer reproduces on this tree')
 
+    # ---- 3b. the buffer manager above the free lists (several classes, alloc falling through, chains): module BufMgr
+    if not ck.violations and not ck.inconclusive:
+        from checks import bufmgr
+        bufmgr.run_into(ck, prop, tier)
+
     # ---- 4. thorough: bigger instances by exhaustive TLC (ABA pruned) + simulation replayed
     if tier == 'thorough' and not ck.violations:
         thorough(ck, prop, rng, aba_listed)
@@ -283,6 +288,12 @@ def thorough(ck, prop, rng, aba_listed):
 
 def do_replay(ck, path):
     rep = json.load(open(path))
+    if rep.get('kind') == 'bufmgr':
+        from checks import bufmgr
+        ck.cov['evaluations'] = 1
+        ck.cov['distinct_nontrivial'] = 1
+        bufmgr.replay(ck, ck.prop, rep)
+        return ck.finish()
     if rep.get('kind') == 'trace':
         tv = tlc.run('Trace_FreeList', 'trace.cfg', workers=1, timeout=600, extra_files={
             'trace.cfg': TRACE_CFG % dict(nslots=rep['nslots'], threads=', '.join(str(i + 1) for i in range(rep['nthreads']))),
